@@ -34,6 +34,7 @@ CONSTANTS
     Authorizers, AuthTargets,   \* who authorizes / for which peers (model bound)
     OpTargets,                  \* peers addressed by quit / black / init-pos / cost calls (model bound)
     Acts,                       \* enabled action names
+    Script,                     \* sequence of call records executed first (the harness makes the same calls)
     WithInvalid,                \* also generate failing calls
     MaxOps
 
@@ -379,13 +380,13 @@ TransferPenalty(p, a) ==
     /\ UNCHANGED <<pool, prev, au, stake, ong, fee, splitFee, attr, promise, black>>
 
 \* a call whose guard is false: the transaction fails, nothing changes
-Failing(a) == /\ WithInvalid /\ Step([a EXCEPT !.ok = FALSE])
+Failing(a) == /\ (WithInvalid \/ nops < Len(Script)) /\ Step([a EXCEPT !.ok = FALSE])
               /\ UNCHANGED <<pool, prev, au, stake, pen, ont, ong, fee, splitFee, attr, promise, black>>
 
 On(n) == n \in Acts
 Owners == {OwnerOf[p] : p \in Peers}
 Next ==
-    /\ nops < MaxOps
+    /\ nops < Len(Script) + MaxOps
     /\ \/ \E p \in CandPeers, x \in RegPos : On("Register") /\
             LET a == [name |-> "Register", p |-> p, a |-> OwnerOf[p], x |-> x, ok |-> TRUE]
             IN IF RegisterOK(p, OwnerOf[p], x) THEN Register(p, OwnerOf[p], x) /\ Step(a) ELSE Failing(a)
@@ -429,7 +430,27 @@ Next ==
             LET a == [name |-> "TransferPenalty", p |-> p, a |-> ad, ok |-> TRUE]
             IN IF TransferPenaltyOK(p, ad) THEN TransferPenalty(p, ad) /\ Step(a) ELSE Failing(a)
 
-Spec == Init /\ [][Next]_vars
+\* one call given as a record (scripted prefixes and trace validation): succeeds as the action, or fails
+Do(a) ==
+    CASE a.name = "Register" -> IF RegisterOK(a.p, a.a, a.x) THEN Register(a.p, a.a, a.x) /\ Step(a) ELSE Failing(a)
+      [] a.name = "SetMax" -> IF SetMaxOK(a.p, a.a, a.x) THEN SetMax(a.p, a.a, a.x) /\ Step(a) ELSE Failing(a)
+      [] a.name = "Authorize" -> IF AuthorizeOK(a.a, a.p, a.x) THEN Authorize(a.a, a.p, a.x) /\ Step(a) ELSE Failing(a)
+      [] a.name = "UnAuthorize" -> IF UnAuthorizeOK(a.a, a.p, a.x) THEN UnAuthorize(a.a, a.p, a.x) /\ Step(a) ELSE Failing(a)
+      [] a.name = "Withdraw" -> IF WithdrawOK(a.a, a.p, a.x) THEN Withdraw(a.a, a.p, a.x) /\ Step(a) ELSE Failing(a)
+      [] a.name = "Quit" -> IF QuitOK(a.p, a.a) THEN Quit(a.p, a.a) /\ Step(a) ELSE Failing(a)
+      [] a.name = "Black" -> (Black(a.p) /\ Step(a)) \/ (~BlackOK(a.p) /\ Failing(a))
+      [] a.name = "White" -> IF WhiteOK(a.p) THEN White(a.p) /\ Step(a) ELSE Failing(a)
+      [] a.name = "Commit" -> (Commit /\ Step(a)) \/ (~CommitRes.ok /\ Failing(a))
+      [] a.name = "AddInit" -> IF AddInitOK(a.p, a.a, a.x) THEN AddInit(a.p, a.a, a.x) /\ Step(a) ELSE Failing(a)
+      [] a.name = "ReduceInit" -> IF ReduceInitOK(a.p, a.a, a.x) THEN ReduceInit(a.p, a.a, a.x) /\ Step(a) ELSE Failing(a)
+      [] a.name = "SetCost" -> IF SetCostOK(a.p, a.a, <<a.x, a.y>>) THEN SetCost(a.p, a.a, <<a.x, a.y>>) /\ Step(a) ELSE Failing(a)
+      [] a.name = "Fee" -> Fee(a.x) /\ Step(a)
+      [] a.name = "WithdrawFee" -> IF WithdrawFeeOK(a.a) THEN WithdrawFee(a.a) /\ Step(a) ELSE Failing(a)
+      [] a.name = "TransferPenalty" -> IF TransferPenaltyOK(a.p, a.a) THEN TransferPenalty(a.p, a.a) /\ Step(a) ELSE Failing(a)
+
+\* a scripted prefix (the same calls the harness makes first), then free exploration
+ScriptNext == IF nops < Len(Script) THEN Do(Script[nops + 1]) ELSE Next
+Spec == Init /\ [][ScriptNext]_vars
 
 ----------------------------------------------------------------------------
 (* Properties *)
